@@ -247,12 +247,24 @@ func dispatch(op Op) (interface{}, error) {
 		var a struct {
 			Path string `json:"path"`
 			Text string `json:"text"`
+			// PreserveMtime: the edit keeps the file's modification time (cp -p, rsync -t, or two
+			// writes within one tick of a coarse file-system clock)
+			PreserveMtime bool `json:"preserve_mtime"`
 		}
 		if err := json.Unmarshal(op.Args, &a); err != nil {
 			return nil, err
 		}
+		var old os.FileInfo
+		if a.PreserveMtime {
+			old, _ = os.Stat(a.Path)
+		}
 		if err := os.WriteFile(a.Path, []byte(a.Text), 0644); err != nil {
 			return nil, err
+		}
+		if old != nil {
+			if err := os.Chtimes(a.Path, old.ModTime(), old.ModTime()); err != nil {
+				return nil, err
+			}
 		}
 		return true, nil
 
